@@ -65,6 +65,10 @@ func c02Setup(c *core.Case) *c02Parties {
 	if rolled || nearWrap {
 		b := frame.NewFrameBuilder()
 		start := uint32(0xFFFF_FFFF - 2)
+		wraps := 1
+		if rolled && c.Bool("rolled-over.twice") {
+			wraps = 2
+		}
 		if nearWrap {
 			start = 0xFFFF_FF00 + uint32(c.Int("near-wrap.at", 0, 60))
 		}
@@ -74,7 +78,11 @@ func c02Setup(c *core.Case) *c02Parties {
 		}{{p.a, p.b, p.sAB, p.sBA}, {p.c, p.b, sCB, p.sBC}, {p.a, p.d, sAD, p.sDA}} {
 			h := state.EncryptionSessionTestHelper{EncryptionSession: pr.s.Encryption()}
 			h.ReglSetOut(start)
-			for k := 0; k < 5; k++ {
+			for k := 0; k < 5*wraps; k++ {
+				if k == 5 {
+					// ... and a second time (5 frames later in this model of a long life).
+					h.ReglSetOut(start)
+				}
 				f, err := b.NewFrameV1(pr.from.ID.Addr.IP, pr.to.ID.Addr.IP, frame.NetworkTraffic, nil, []byte("long-lived session traffic"), nil)
 				if err != nil {
 					c.Fatalf("frame: %v", err)
@@ -91,7 +99,7 @@ func c02Setup(c *core.Case) *c02Parties {
 			}
 		}
 		if rolled {
-			c.Class("sessions-rolled-over-once")
+			c.Class(fmt.Sprintf("sessions-rolled-over-%d-times", wraps))
 		} else {
 			c.Class("sessions-about-to-wrap")
 		}
@@ -530,6 +538,37 @@ func c02Check(c *core.Case, sp *c02Spec, bitsPerByte int) {
 			c.Fatalf("%s changed the delivered payload", what)
 		}
 		accepts++
+	}
+
+	// A key setup that fails (the other side offers a key-exchange share the
+	// exchange refuses: all zero, a low-order point; or one of the wrong size)
+	// leaves the session as it was: the round trip continues under the old keys.
+	if c.Chance("refused-kx", 1, 5) {
+		share := make([]byte, 32)
+		if c.Bool("refused-kx.short") {
+			share = share[:c.Int("refused-kx.len", 0, 31)]
+		}
+		who, sess := "sender", p.sAB
+		if c.Bool("refused-kx.at-receiver") {
+			who, sess = "receiver", p.sBA
+		}
+		if _, _, err := sess.Encryption().InitKeyServer(share, "ECDH-X25519/BLAKE3"); err == nil {
+			c.Fatalf("a key exchange with an all-zero share of %d bytes succeeded", len(share))
+		}
+		for k := 0; k < 2; k++ {
+			w2, err := c02Seal(sp, sb, p)
+			if err != nil {
+				c.Fatalf("seal after a refused key exchange at the %s: %v", who, err)
+			}
+			msg, perr, uerr := c02Unseal(rb, sp.offR, sp.ovR, w2, p.sBA)
+			if perr != nil || uerr != nil {
+				c.Fatalf("after a refused key exchange at the %s frame %d does not unseal: parse=%v unseal=%v", who, k+1, perr, uerr)
+			}
+			if !bytes.Equal(msg, sp.payload) {
+				c.Fatalf("after a refused key exchange the round trip changed the payload")
+			}
+		}
+		c.Class("refused-key-exchange-in-between")
 	}
 
 	// New keys on the same sessions (a later hello exchange between the two
